@@ -63,27 +63,10 @@ def realloc_discipline(rep, rule, m, scope_files=None):
     return n
 
 
-def is_assert_like(x):
-    return x["kind"] == "DoStmt"
-
-
-def rules(rep, m):
-    mp_files = ("src/cmi_mempool.c", "src/cmi_mempool.h")
+def threading_rules(rep, r2, m):
+    """Free-list threading of a new chunk (engine IDX) and chunk geometry; returns names used by later rules."""
     ex = m.need("cmi_mempool_expand")
     ini = m.need("cmi_mempool_initialize")
-    al = m.need("cmi_mempool_alloc")
-    fr = m.need("cmi_mempool_free")
-    tm = m.need("cmi_mempool_terminate")
-    r1 = rep.rule("R-C20-1", "the chunk list is grown with a realloc whose result is stored back and whose size is in bytes",
-                  floor=1)
-    n = realloc_discipline(rep, r1, m, mp_files)
-    if n == 0:
-        raise AnalysisBroken("no realloc found in the memory pool")
-
-    # R-C20-2 ------------------------------------------------------------
-    r2 = rep.rule("R-C20-2", "free-list threading: consecutive objects of a new chunk are obj_sz bytes apart (stride in words "
-                  "with obj_sz a multiple of 8), exactly incr_num - 1 links are threaded and the last is NULL, and "
-                  "incr_num * obj_sz fits in the chunk that was allocated", floor=3)
     ex_x = FuncCtx(m, ex)
     mp = ex.params[0]["name"]
     allocs = [c for c in walk(ex.body) if c["kind"] == "CallExpr" and callee_ref(c) == "cmi_aligned_alloc"]
@@ -156,6 +139,32 @@ def rules(rep, m):
         r2.fail()
     else:
         r2.ok()
+
+    return ex_x, mp, allocs, a, ix, ist, imp, osz, page
+
+
+def is_assert_like(x):
+    return x["kind"] == "DoStmt"
+
+
+def rules(rep, m):
+    mp_files = ("src/cmi_mempool.c", "src/cmi_mempool.h")
+    ex = m.need("cmi_mempool_expand")
+    ini = m.need("cmi_mempool_initialize")
+    al = m.need("cmi_mempool_alloc")
+    fr = m.need("cmi_mempool_free")
+    tm = m.need("cmi_mempool_terminate")
+    r1 = rep.rule("R-C20-1", "the chunk list is grown with a realloc whose result is stored back and whose size is in bytes",
+                  floor=1)
+    n = realloc_discipline(rep, r1, m, mp_files)
+    if n == 0:
+        raise AnalysisBroken("no realloc found in the memory pool")
+
+    # R-C20-2 ------------------------------------------------------------
+    r2 = rep.rule("R-C20-2", "free-list threading: consecutive objects of a new chunk are obj_sz bytes apart (stride in words "
+                  "with obj_sz a multiple of 8), exactly incr_num - 1 links are threaded and the last is NULL, and "
+                  "incr_num * obj_sz fits in the chunk that was allocated", floor=3)
+    ex_x, mp, allocs, a, ix, ist, imp, osz, page = threading_rules(rep, r2, m)
 
     # R-C20-3 ------------------------------------------------------------
     r3 = rep.rule("R-C20-3", "alignment: chunks are page-aligned and the object size is release-asserted to be a multiple of "
